@@ -24,7 +24,7 @@ CLASSES = ["ValueError", "IndexError", "KeyError", "StopIteration", "TypeError",
            "MemoryError", "NameError", "AttributeError"]
 EXTRA_KEYS = {"pdb": ["occupancies", "bfactors", "chainids"], "gromacs": ["velocities"]}
 ALLOC_LIMIT = 2**30
-PER_CASE_LIMIT = 10
+PER_CASE_LIMIT = 5
 # characters of the modelled domain used by the substitution mutations
 SUBST = list("x*-9. \t#_+eE,:@0") + [" ", "é", "²", "٣", "€"]
 NUMREP = ["99999999999999999999", "1e999", "-1", "0", "nan", "1.5", "1_0", "١٢", "-99999999999999999999",
@@ -447,8 +447,14 @@ def _rctor_cases(ctx):
         if chg:
             kw["atcharges"] = {f"k{i}": np.zeros(c) for i, c in enumerate(chg)}
         try:
-            IOData(**kw)
+            obj = IOData(**kw)
             outs.append("ok")
+            bad = _inconsistent(obj)
+            if bad:
+                shapes = {k: (list(v.shape) if hasattr(v, "shape") else {kk: list(vv.shape) for kk, vv in v.items()})
+                          for k, v in kw.items()}
+                ctx.fail("ctor-accepts-inconsistent-shapes:IOData",
+                         f"IOData(**arrays) accepted arrays of shapes {shapes}: {bad}", {"kind": "rctor", "shapes": shapes})
         except Exception as exc:  # noqa: BLE001
             outs.append(_cls(exc))
 
@@ -471,7 +477,17 @@ def correspond(ctx):
             cs = cases(ctx, fmt)
             total_files += len(_sources(fmt))
             base = {}
-            results = pool.map(_worker, [(fmt, t) for t, _ in cs], chunksize=16)
+            # in batches: a parser that does not terminate costs PER_CASE_LIMIT seconds per input, so the rest of the
+            # format is skipped once two inputs have timed out (they are reported as failures below)
+            results, nto = [], 0
+            for b0 in range(0, len(cs), 96):
+                part = pool.map(_worker, [(fmt, t) for t, _ in cs[b0:b0 + 96]], chunksize=4)
+                results.extend(part)
+                nto += sum(1 for r in part if r["verdict"] == "timeout")
+                if nto >= 2:
+                    ctx.extra_cov.setdefault("rdr_formats_cut_short_after_timeouts", []).append(fmt)
+                    break
+            cs = cs[: len(results)]
             reqs, outs, nontriv, classes = [], [], [], []
             ntimeout = 0
             for (text, label), r in zip(cs, results):
@@ -507,5 +523,15 @@ def search(ctx):
 
 def replay(ctx, obj):
     inp = obj["input"]
+    if inp.get("kind") == "rctor":
+        import numpy as np
+        from iodata import IOData
+
+        kw = {k: ({kk: np.zeros(vv) for kk, vv in v.items()} if isinstance(v, dict) else
+                  np.zeros(v, int if k in ("atnums", "bonds") else float)) for k, v in inp["shapes"].items()}
+        try:
+            return bool(_inconsistent(IOData(**kw)))
+        except Exception:  # noqa: BLE001
+            return False
     r = real_outcome(inp["fmt"], inp["text"])
     return r["verdict"] != "ok"
